@@ -964,25 +964,34 @@ def uniform2d_cases(rnd, tier):
         gam = rnd.choice([1.4, 5.0 / 3.0])
         rho, p = rnd.choice([1.0, 0.3, 40.0]), rnd.choice([1.0, 0.2, 1e3])
         cs = math.sqrt(gam * p / rho)
-        mach = rnd.choice([0.0, 0.4, 0.9, 2.0])
-        ang = rnd.choice([0.0, 30.0, 90.0, 135.0, -60.0, 180.0])
+        # configurations are cycled (not left to chance): periodic at any angle, walls at rest, supersonic oblique inflow, duct
+        cfg = ["per", "insup_angle", "sym", "duct", "insup_angle", "per"][c % 6]
+        if cfg == "per":
+            mach = rnd.choice([0.0, 0.4, 0.9, 2.0])
+            ang = rnd.choice([0.0, 30.0, 90.0, 135.0, -60.0, 180.0])
+        elif cfg == "insup_angle":
+            mach, ang = rnd.choice([1.5, 2.0, 3.0]), rnd.choice([30.0, -60.0, 20.0, -35.0, 0.0, 45.0])
+        elif cfg == "sym":
+            mach, ang = 0.0, 0.0
+        else:
+            mach, ang = rnd.choice([0.4, 0.9]), 0.0
         ux, uy = mach * cs * math.cos(math.radians(ang)), mach * cs * math.sin(math.radians(ang))
         model0 = fd.euler.euler2d(gamma=gam)
         q = model0.prim2cons([np.array([rho]), np.array([[ux], [uy]]), np.array([p])])
         per = {"type": "per"}
         bcl = dict(left=per, right=per, bottom=per, top=per)
         kindbc = "per"
-        if mach == 0.0 and c % 2:
+        if cfg == "sym":
             bcl = {t: {"type": "sym"} for t in bcl}
             kindbc = "sym"
-        elif mach > 1.0 and c % 2 and ang in (0.0, 30.0, -60.0):
-            # supersonic inflow from the left at an angle: left = insup(angle), other sides supersonic outflow / periodic
+        elif cfg == "insup_angle":
+            # supersonic inflow from the left at an angle: left = insup(angle), right supersonic outflow, periodic in y
             ptot = float(model0.nameddata("ptot", q)[0])
             rttot = float(model0.nameddata("rttot", q)[0])
             bcl = dict(left={"type": "insup", "ptot": ptot, "rttot": rttot, "p": p, "angle": ang}, right={"type": "outsup"},
                        bottom=per, top=per)
             kindbc = "insup_angle"
-        elif 0.0 < mach < 1.0 and ang == 0.0 and c % 2:
+        elif cfg == "duct":
             ptot = float(model0.nameddata("ptot", q)[0])
             rttot = float(model0.nameddata("rttot", q)[0])
             bcl = dict(left={"type": "insub", "ptot": ptot, "rttot": rttot}, right={"type": "outsub", "p": p},
